@@ -34,6 +34,9 @@ LEVEL_TEXT = (
 )
 LEVEL_NOTE = "Trusted: the ~200-line policy model (vpchk/ctxmodel.py), each handler's identify(), Hypothesis."
 TECHNIQUE = "Hypothesis model-based testing of CryptContext against a reference policy model"
+#: thorough tier: seed-dependent tasks are repeated under this many derived seeds (run.py); the listed task functions enumerate fixed domains
+THOROUGH_REPS = 4
+DETERMINISTIC_FNS = ('t_directed',)
 
 PW = "pässword"
 
